@@ -50,19 +50,32 @@ PREFIXES = ['checkpoint_', 'ckpt', 'model_v', 'x']
 # operations executed in forked children
 # ----------------------------------------------------------------------------
 def tree_for(marker):
+  # 'm': a matrix leaf whose memory layout depends on the marker (C order,
+  # Fortran order -- e.g. a transposed weight --, or a strided view); the
+  # values a restore must return are the same for all three
+  m = (np.arange(6, dtype=np.int16) + marker).reshape(2, 3)
+  if marker % 3 == 1:
+    m = np.asfortranarray(m)
+  elif marker % 3 == 2:
+    base = np.zeros((2, 6), np.int16)
+    base[:, ::2] = m
+    m = base[:, ::2]
   return {'a': np.arange(3, dtype=np.int32) + marker,
-          'n': {'s': np.float32(marker)}}
+          'n': {'s': np.float32(marker)}, 'm': m}
 
 
 def simplify(t):
   if t is None:
     return None
   return [[int(x) for x in np.asarray(t['a']).tolist()],
-          float(np.asarray(t['n']['s']))]
+          float(np.asarray(t['n']['s'])),
+          [[int(x) for x in row] for row in np.asarray(t['m']).tolist()]]
 
 
 def expect_tree(marker):
-  return [[marker, marker + 1, marker + 2], float(marker)]
+  return [[marker, marker + 1, marker + 2], float(marker),
+          [[marker, marker + 1, marker + 2],
+           [marker + 3, marker + 4, marker + 5]]]
 
 
 def op_save(d, backend, prefix, step, marker, keep, every, overwrite,
